@@ -7,6 +7,7 @@
 //! decoding (`parse_args` itself) is verified separately (c01 parse_args harnesses).
 use crate::h::*;
 use crate::spec::*;
+use crate::stubs::G;
 use chia_consensus::conditions::*;
 use chia_consensus::consensus_constants::{ConsensusConstants, TEST_CONSTANTS};
 use chia_consensus::flags::ConsensusFlags;
@@ -19,18 +20,7 @@ use clvmr::allocator::{Allocator, NodePtr};
 use std::sync::Arc;
 
 // ---- payload registers read by the parse_args stubs ---------------------------
-pub static mut P_N1: NodePtr = NodePtr::NIL;
-pub static mut P_N2: NodePtr = NodePtr::NIL;
-pub static mut P_N3: NodePtr = NodePtr::NIL;
-pub static mut P_U64: u64 = 0;
-pub static mut P_U32: u32 = 0;
-pub static mut P_U8: u8 = 0;
-pub static mut P_SID: u8 = 0;
 /// second condition (for two-condition harnesses)
-pub static mut Q_N1: NodePtr = NodePtr::NIL;
-pub static mut Q_U64: u64 = 0;
-pub static mut Q_U32: u32 = 0;
-pub static mut PA_CALLS: u32 = 0;
 
 pub unsafe fn mk_sid(kind: u8, n1: NodePtr, n2: NodePtr, v: u64) -> SpendId {
     match kind {
@@ -56,49 +46,49 @@ macro_rules! pa_stub {
         ) -> Result<chia_consensus::conditions::Condition, chia_consensus::validation_error::ValidationErr> {
             #[allow(unused_unsafe)]
             unsafe {
-                $crate::arm::PA_CALLS += 1;
+                crate::stubs::G.pa_calls += 1;
                 Ok($e)
             }
         }
     };
 }
 
-pa_stub!(pa_reserve_fee, Condition::ReserveFee(P_U64));
-pa_stub!(pa_create_coin, Condition::CreateCoin(P_N1, P_U64, P_N2));
-pa_stub!(pa_seconds_relative, Condition::AssertSecondsRelative(P_U64));
-pa_stub!(pa_seconds_absolute, Condition::AssertSecondsAbsolute(P_U64));
-pa_stub!(pa_height_relative, Condition::AssertHeightRelative(P_U32));
-pa_stub!(pa_height_absolute, Condition::AssertHeightAbsolute(P_U32));
-pa_stub!(pa_before_seconds_relative, Condition::AssertBeforeSecondsRelative(P_U64));
-pa_stub!(pa_before_seconds_absolute, Condition::AssertBeforeSecondsAbsolute(P_U64));
-pa_stub!(pa_before_height_relative, Condition::AssertBeforeHeightRelative(P_U32));
-pa_stub!(pa_before_height_absolute, Condition::AssertBeforeHeightAbsolute(P_U32));
-pa_stub!(pa_my_coin_id, Condition::AssertMyCoinId(P_N1));
-pa_stub!(pa_my_parent_id, Condition::AssertMyParentId(P_N1));
-pa_stub!(pa_my_puzzlehash, Condition::AssertMyPuzzlehash(P_N1));
-pa_stub!(pa_my_amount, Condition::AssertMyAmount(P_U64));
-pa_stub!(pa_my_birth_seconds, Condition::AssertMyBirthSeconds(P_U64));
-pa_stub!(pa_my_birth_height, Condition::AssertMyBirthHeight(P_U32));
+pa_stub!(pa_reserve_fee, Condition::ReserveFee(crate::stubs::G.p_u64));
+pa_stub!(pa_create_coin, Condition::CreateCoin(crate::stubs::G.p_n1, crate::stubs::G.p_u64, crate::stubs::G.p_n2));
+pa_stub!(pa_seconds_relative, Condition::AssertSecondsRelative(crate::stubs::G.p_u64));
+pa_stub!(pa_seconds_absolute, Condition::AssertSecondsAbsolute(crate::stubs::G.p_u64));
+pa_stub!(pa_height_relative, Condition::AssertHeightRelative(crate::stubs::G.p_u32));
+pa_stub!(pa_height_absolute, Condition::AssertHeightAbsolute(crate::stubs::G.p_u32));
+pa_stub!(pa_before_seconds_relative, Condition::AssertBeforeSecondsRelative(crate::stubs::G.p_u64));
+pa_stub!(pa_before_seconds_absolute, Condition::AssertBeforeSecondsAbsolute(crate::stubs::G.p_u64));
+pa_stub!(pa_before_height_relative, Condition::AssertBeforeHeightRelative(crate::stubs::G.p_u32));
+pa_stub!(pa_before_height_absolute, Condition::AssertBeforeHeightAbsolute(crate::stubs::G.p_u32));
+pa_stub!(pa_my_coin_id, Condition::AssertMyCoinId(crate::stubs::G.p_n1));
+pa_stub!(pa_my_parent_id, Condition::AssertMyParentId(crate::stubs::G.p_n1));
+pa_stub!(pa_my_puzzlehash, Condition::AssertMyPuzzlehash(crate::stubs::G.p_n1));
+pa_stub!(pa_my_amount, Condition::AssertMyAmount(crate::stubs::G.p_u64));
+pa_stub!(pa_my_birth_seconds, Condition::AssertMyBirthSeconds(crate::stubs::G.p_u64));
+pa_stub!(pa_my_birth_height, Condition::AssertMyBirthHeight(crate::stubs::G.p_u32));
 pa_stub!(pa_ephemeral, Condition::AssertEphemeral);
-pa_stub!(pa_create_coin_ann, Condition::CreateCoinAnnouncement(P_N1));
-pa_stub!(pa_create_puzzle_ann, Condition::CreatePuzzleAnnouncement(P_N1));
-pa_stub!(pa_assert_coin_ann, Condition::AssertCoinAnnouncement(P_N1));
-pa_stub!(pa_assert_puzzle_ann, Condition::AssertPuzzleAnnouncement(P_N1));
-pa_stub!(pa_concurrent_spend, Condition::AssertConcurrentSpend(P_N1));
-pa_stub!(pa_concurrent_puzzle, Condition::AssertConcurrentPuzzle(P_N1));
-pa_stub!(pa_softfork, Condition::Softfork(P_U64));
-pa_stub!(pa_send_message, Condition::SendMessage(P_U8, mk_sid(P_SID, P_N2, P_N3, P_U64), P_N1));
-pa_stub!(pa_receive_message, Condition::ReceiveMessage(mk_sid(P_SID, P_N2, P_N3, P_U64), P_U8, P_N1));
+pa_stub!(pa_create_coin_ann, Condition::CreateCoinAnnouncement(crate::stubs::G.p_n1));
+pa_stub!(pa_create_puzzle_ann, Condition::CreatePuzzleAnnouncement(crate::stubs::G.p_n1));
+pa_stub!(pa_assert_coin_ann, Condition::AssertCoinAnnouncement(crate::stubs::G.p_n1));
+pa_stub!(pa_assert_puzzle_ann, Condition::AssertPuzzleAnnouncement(crate::stubs::G.p_n1));
+pa_stub!(pa_concurrent_spend, Condition::AssertConcurrentSpend(crate::stubs::G.p_n1));
+pa_stub!(pa_concurrent_puzzle, Condition::AssertConcurrentPuzzle(crate::stubs::G.p_n1));
+pa_stub!(pa_softfork, Condition::Softfork(crate::stubs::G.p_u64));
+pa_stub!(pa_send_message, Condition::SendMessage(crate::stubs::G.p_u8, mk_sid(crate::stubs::G.p_sid, crate::stubs::G.p_n2, crate::stubs::G.p_n3, crate::stubs::G.p_u64), crate::stubs::G.p_n1));
+pa_stub!(pa_receive_message, Condition::ReceiveMessage(mk_sid(crate::stubs::G.p_sid, crate::stubs::G.p_n2, crate::stubs::G.p_n3, crate::stubs::G.p_u64), crate::stubs::G.p_u8, crate::stubs::G.p_n1));
 pa_stub!(pa_skip, Condition::Skip);
 pa_stub!(pa_skip_relative, Condition::SkipRelativeCondition);
-pa_stub!(pa_agg_sig_unsafe, Condition::AggSigUnsafe(P_N1, P_N2));
-pa_stub!(pa_agg_sig_me, Condition::AggSigMe(P_N1, P_N2));
-pa_stub!(pa_agg_sig_parent, Condition::AggSigParent(P_N1, P_N2));
-pa_stub!(pa_agg_sig_puzzle, Condition::AggSigPuzzle(P_N1, P_N2));
-pa_stub!(pa_agg_sig_amount, Condition::AggSigAmount(P_N1, P_N2));
-pa_stub!(pa_agg_sig_puzzle_amount, Condition::AggSigPuzzleAmount(P_N1, P_N2));
-pa_stub!(pa_agg_sig_parent_amount, Condition::AggSigParentAmount(P_N1, P_N2));
-pa_stub!(pa_agg_sig_parent_puzzle, Condition::AggSigParentPuzzle(P_N1, P_N2));
+pa_stub!(pa_agg_sig_unsafe, Condition::AggSigUnsafe(crate::stubs::G.p_n1, crate::stubs::G.p_n2));
+pa_stub!(pa_agg_sig_me, Condition::AggSigMe(crate::stubs::G.p_n1, crate::stubs::G.p_n2));
+pa_stub!(pa_agg_sig_parent, Condition::AggSigParent(crate::stubs::G.p_n1, crate::stubs::G.p_n2));
+pa_stub!(pa_agg_sig_puzzle, Condition::AggSigPuzzle(crate::stubs::G.p_n1, crate::stubs::G.p_n2));
+pa_stub!(pa_agg_sig_amount, Condition::AggSigAmount(crate::stubs::G.p_n1, crate::stubs::G.p_n2));
+pa_stub!(pa_agg_sig_puzzle_amount, Condition::AggSigPuzzleAmount(crate::stubs::G.p_n1, crate::stubs::G.p_n2));
+pa_stub!(pa_agg_sig_parent_amount, Condition::AggSigParentAmount(crate::stubs::G.p_n1, crate::stubs::G.p_n2));
+pa_stub!(pa_agg_sig_parent_puzzle, Condition::AggSigParentPuzzle(crate::stubs::G.p_n1, crate::stubs::G.p_n2));
 
 
 // ---- the concretizing visitor -------------------------------------------------------
@@ -111,7 +101,6 @@ pa_stub!(pa_agg_sig_parent_puzzle, Condition::AggSigParentPuzzle(P_N1, P_N2));
 // stores that same value back through a typed write, which gives CBMC a constant
 // discriminant. The write is the identity on values (that is what the assertion proves),
 // so the code under test behaves exactly as with its own value (18 s, 0.2 M variables).
-pub static mut EXP_KIND: u8 = 0;
 
 pub const K_RESERVE_FEE: u8 = 0;
 pub const K_CREATE_COIN: u8 = 1;
@@ -166,89 +155,88 @@ fn sid_same(s: &SpendId, kind: u8, n1: NodePtr, n2: NodePtr, v: u64) -> bool {
 /// does `c` equal the expected condition (kind + payload registers)?
 pub unsafe fn cond_same(c: &Condition, kind: u8) -> bool {
     match kind {
-        K_RESERVE_FEE => matches!(c, Condition::ReserveFee(x) if *x == P_U64),
-        K_CREATE_COIN => matches!(c, Condition::CreateCoin(a, x, b) if *a == P_N1 && *x == P_U64 && *b == P_N2),
-        K_SECONDS_RELATIVE => matches!(c, Condition::AssertSecondsRelative(x) if *x == P_U64),
-        K_SECONDS_ABSOLUTE => matches!(c, Condition::AssertSecondsAbsolute(x) if *x == P_U64),
-        K_HEIGHT_RELATIVE => matches!(c, Condition::AssertHeightRelative(x) if *x == P_U32),
-        K_HEIGHT_ABSOLUTE => matches!(c, Condition::AssertHeightAbsolute(x) if *x == P_U32),
-        K_BEFORE_SECONDS_RELATIVE => matches!(c, Condition::AssertBeforeSecondsRelative(x) if *x == P_U64),
-        K_BEFORE_SECONDS_ABSOLUTE => matches!(c, Condition::AssertBeforeSecondsAbsolute(x) if *x == P_U64),
-        K_BEFORE_HEIGHT_RELATIVE => matches!(c, Condition::AssertBeforeHeightRelative(x) if *x == P_U32),
-        K_BEFORE_HEIGHT_ABSOLUTE => matches!(c, Condition::AssertBeforeHeightAbsolute(x) if *x == P_U32),
-        K_MY_COIN_ID => matches!(c, Condition::AssertMyCoinId(a) if *a == P_N1),
-        K_MY_PARENT_ID => matches!(c, Condition::AssertMyParentId(a) if *a == P_N1),
-        K_MY_PUZZLEHASH => matches!(c, Condition::AssertMyPuzzlehash(a) if *a == P_N1),
-        K_MY_AMOUNT => matches!(c, Condition::AssertMyAmount(x) if *x == P_U64),
-        K_MY_BIRTH_SECONDS => matches!(c, Condition::AssertMyBirthSeconds(x) if *x == P_U64),
-        K_MY_BIRTH_HEIGHT => matches!(c, Condition::AssertMyBirthHeight(x) if *x == P_U32),
+        K_RESERVE_FEE => matches!(c, Condition::ReserveFee(x) if *x == crate::stubs::G.p_u64),
+        K_CREATE_COIN => matches!(c, Condition::CreateCoin(a, x, b) if *a == crate::stubs::G.p_n1 && *x == crate::stubs::G.p_u64 && *b == crate::stubs::G.p_n2),
+        K_SECONDS_RELATIVE => matches!(c, Condition::AssertSecondsRelative(x) if *x == crate::stubs::G.p_u64),
+        K_SECONDS_ABSOLUTE => matches!(c, Condition::AssertSecondsAbsolute(x) if *x == crate::stubs::G.p_u64),
+        K_HEIGHT_RELATIVE => matches!(c, Condition::AssertHeightRelative(x) if *x == crate::stubs::G.p_u32),
+        K_HEIGHT_ABSOLUTE => matches!(c, Condition::AssertHeightAbsolute(x) if *x == crate::stubs::G.p_u32),
+        K_BEFORE_SECONDS_RELATIVE => matches!(c, Condition::AssertBeforeSecondsRelative(x) if *x == crate::stubs::G.p_u64),
+        K_BEFORE_SECONDS_ABSOLUTE => matches!(c, Condition::AssertBeforeSecondsAbsolute(x) if *x == crate::stubs::G.p_u64),
+        K_BEFORE_HEIGHT_RELATIVE => matches!(c, Condition::AssertBeforeHeightRelative(x) if *x == crate::stubs::G.p_u32),
+        K_BEFORE_HEIGHT_ABSOLUTE => matches!(c, Condition::AssertBeforeHeightAbsolute(x) if *x == crate::stubs::G.p_u32),
+        K_MY_COIN_ID => matches!(c, Condition::AssertMyCoinId(a) if *a == crate::stubs::G.p_n1),
+        K_MY_PARENT_ID => matches!(c, Condition::AssertMyParentId(a) if *a == crate::stubs::G.p_n1),
+        K_MY_PUZZLEHASH => matches!(c, Condition::AssertMyPuzzlehash(a) if *a == crate::stubs::G.p_n1),
+        K_MY_AMOUNT => matches!(c, Condition::AssertMyAmount(x) if *x == crate::stubs::G.p_u64),
+        K_MY_BIRTH_SECONDS => matches!(c, Condition::AssertMyBirthSeconds(x) if *x == crate::stubs::G.p_u64),
+        K_MY_BIRTH_HEIGHT => matches!(c, Condition::AssertMyBirthHeight(x) if *x == crate::stubs::G.p_u32),
         K_EPHEMERAL => matches!(c, Condition::AssertEphemeral),
-        K_CREATE_COIN_ANN => matches!(c, Condition::CreateCoinAnnouncement(a) if *a == P_N1),
-        K_CREATE_PUZZLE_ANN => matches!(c, Condition::CreatePuzzleAnnouncement(a) if *a == P_N1),
-        K_ASSERT_COIN_ANN => matches!(c, Condition::AssertCoinAnnouncement(a) if *a == P_N1),
-        K_ASSERT_PUZZLE_ANN => matches!(c, Condition::AssertPuzzleAnnouncement(a) if *a == P_N1),
-        K_CONCURRENT_SPEND => matches!(c, Condition::AssertConcurrentSpend(a) if *a == P_N1),
-        K_CONCURRENT_PUZZLE => matches!(c, Condition::AssertConcurrentPuzzle(a) if *a == P_N1),
-        K_SOFTFORK => matches!(c, Condition::Softfork(x) if *x == P_U64),
-        K_SEND_MESSAGE => matches!(c, Condition::SendMessage(m, s, a) if *m == P_U8 && *a == P_N1 && sid_same(s, P_SID, P_N2, P_N3, P_U64)),
-        K_RECEIVE_MESSAGE => matches!(c, Condition::ReceiveMessage(s, m, a) if *m == P_U8 && *a == P_N1 && sid_same(s, P_SID, P_N2, P_N3, P_U64)),
+        K_CREATE_COIN_ANN => matches!(c, Condition::CreateCoinAnnouncement(a) if *a == crate::stubs::G.p_n1),
+        K_CREATE_PUZZLE_ANN => matches!(c, Condition::CreatePuzzleAnnouncement(a) if *a == crate::stubs::G.p_n1),
+        K_ASSERT_COIN_ANN => matches!(c, Condition::AssertCoinAnnouncement(a) if *a == crate::stubs::G.p_n1),
+        K_ASSERT_PUZZLE_ANN => matches!(c, Condition::AssertPuzzleAnnouncement(a) if *a == crate::stubs::G.p_n1),
+        K_CONCURRENT_SPEND => matches!(c, Condition::AssertConcurrentSpend(a) if *a == crate::stubs::G.p_n1),
+        K_CONCURRENT_PUZZLE => matches!(c, Condition::AssertConcurrentPuzzle(a) if *a == crate::stubs::G.p_n1),
+        K_SOFTFORK => matches!(c, Condition::Softfork(x) if *x == crate::stubs::G.p_u64),
+        K_SEND_MESSAGE => matches!(c, Condition::SendMessage(m, s, a) if *m == crate::stubs::G.p_u8 && *a == crate::stubs::G.p_n1 && sid_same(s, crate::stubs::G.p_sid, crate::stubs::G.p_n2, crate::stubs::G.p_n3, crate::stubs::G.p_u64)),
+        K_RECEIVE_MESSAGE => matches!(c, Condition::ReceiveMessage(s, m, a) if *m == crate::stubs::G.p_u8 && *a == crate::stubs::G.p_n1 && sid_same(s, crate::stubs::G.p_sid, crate::stubs::G.p_n2, crate::stubs::G.p_n3, crate::stubs::G.p_u64)),
         K_SKIP => matches!(c, Condition::Skip),
         K_SKIP_RELATIVE => matches!(c, Condition::SkipRelativeCondition),
-        K_AGG_SIG_UNSAFE => matches!(c, Condition::AggSigUnsafe(a, b) if *a == P_N1 && *b == P_N2),
-        K_AGG_SIG_ME => matches!(c, Condition::AggSigMe(a, b) if *a == P_N1 && *b == P_N2),
-        K_AGG_SIG_PARENT => matches!(c, Condition::AggSigParent(a, b) if *a == P_N1 && *b == P_N2),
-        K_AGG_SIG_PUZZLE => matches!(c, Condition::AggSigPuzzle(a, b) if *a == P_N1 && *b == P_N2),
-        K_AGG_SIG_AMOUNT => matches!(c, Condition::AggSigAmount(a, b) if *a == P_N1 && *b == P_N2),
-        K_AGG_SIG_PUZZLE_AMOUNT => matches!(c, Condition::AggSigPuzzleAmount(a, b) if *a == P_N1 && *b == P_N2),
-        K_AGG_SIG_PARENT_AMOUNT => matches!(c, Condition::AggSigParentAmount(a, b) if *a == P_N1 && *b == P_N2),
-        _ => matches!(c, Condition::AggSigParentPuzzle(a, b) if *a == P_N1 && *b == P_N2),
+        K_AGG_SIG_UNSAFE => matches!(c, Condition::AggSigUnsafe(a, b) if *a == crate::stubs::G.p_n1 && *b == crate::stubs::G.p_n2),
+        K_AGG_SIG_ME => matches!(c, Condition::AggSigMe(a, b) if *a == crate::stubs::G.p_n1 && *b == crate::stubs::G.p_n2),
+        K_AGG_SIG_PARENT => matches!(c, Condition::AggSigParent(a, b) if *a == crate::stubs::G.p_n1 && *b == crate::stubs::G.p_n2),
+        K_AGG_SIG_PUZZLE => matches!(c, Condition::AggSigPuzzle(a, b) if *a == crate::stubs::G.p_n1 && *b == crate::stubs::G.p_n2),
+        K_AGG_SIG_AMOUNT => matches!(c, Condition::AggSigAmount(a, b) if *a == crate::stubs::G.p_n1 && *b == crate::stubs::G.p_n2),
+        K_AGG_SIG_PUZZLE_AMOUNT => matches!(c, Condition::AggSigPuzzleAmount(a, b) if *a == crate::stubs::G.p_n1 && *b == crate::stubs::G.p_n2),
+        K_AGG_SIG_PARENT_AMOUNT => matches!(c, Condition::AggSigParentAmount(a, b) if *a == crate::stubs::G.p_n1 && *b == crate::stubs::G.p_n2),
+        _ => matches!(c, Condition::AggSigParentPuzzle(a, b) if *a == crate::stubs::G.p_n1 && *b == crate::stubs::G.p_n2),
     }
 }
 
 /// the expected condition as a fresh value
 pub unsafe fn cond_build(kind: u8) -> Condition {
     match kind {
-        K_RESERVE_FEE => Condition::ReserveFee(P_U64),
-        K_CREATE_COIN => Condition::CreateCoin(P_N1, P_U64, P_N2),
-        K_SECONDS_RELATIVE => Condition::AssertSecondsRelative(P_U64),
-        K_SECONDS_ABSOLUTE => Condition::AssertSecondsAbsolute(P_U64),
-        K_HEIGHT_RELATIVE => Condition::AssertHeightRelative(P_U32),
-        K_HEIGHT_ABSOLUTE => Condition::AssertHeightAbsolute(P_U32),
-        K_BEFORE_SECONDS_RELATIVE => Condition::AssertBeforeSecondsRelative(P_U64),
-        K_BEFORE_SECONDS_ABSOLUTE => Condition::AssertBeforeSecondsAbsolute(P_U64),
-        K_BEFORE_HEIGHT_RELATIVE => Condition::AssertBeforeHeightRelative(P_U32),
-        K_BEFORE_HEIGHT_ABSOLUTE => Condition::AssertBeforeHeightAbsolute(P_U32),
-        K_MY_COIN_ID => Condition::AssertMyCoinId(P_N1),
-        K_MY_PARENT_ID => Condition::AssertMyParentId(P_N1),
-        K_MY_PUZZLEHASH => Condition::AssertMyPuzzlehash(P_N1),
-        K_MY_AMOUNT => Condition::AssertMyAmount(P_U64),
-        K_MY_BIRTH_SECONDS => Condition::AssertMyBirthSeconds(P_U64),
-        K_MY_BIRTH_HEIGHT => Condition::AssertMyBirthHeight(P_U32),
+        K_RESERVE_FEE => Condition::ReserveFee(crate::stubs::G.p_u64),
+        K_CREATE_COIN => Condition::CreateCoin(crate::stubs::G.p_n1, crate::stubs::G.p_u64, crate::stubs::G.p_n2),
+        K_SECONDS_RELATIVE => Condition::AssertSecondsRelative(crate::stubs::G.p_u64),
+        K_SECONDS_ABSOLUTE => Condition::AssertSecondsAbsolute(crate::stubs::G.p_u64),
+        K_HEIGHT_RELATIVE => Condition::AssertHeightRelative(crate::stubs::G.p_u32),
+        K_HEIGHT_ABSOLUTE => Condition::AssertHeightAbsolute(crate::stubs::G.p_u32),
+        K_BEFORE_SECONDS_RELATIVE => Condition::AssertBeforeSecondsRelative(crate::stubs::G.p_u64),
+        K_BEFORE_SECONDS_ABSOLUTE => Condition::AssertBeforeSecondsAbsolute(crate::stubs::G.p_u64),
+        K_BEFORE_HEIGHT_RELATIVE => Condition::AssertBeforeHeightRelative(crate::stubs::G.p_u32),
+        K_BEFORE_HEIGHT_ABSOLUTE => Condition::AssertBeforeHeightAbsolute(crate::stubs::G.p_u32),
+        K_MY_COIN_ID => Condition::AssertMyCoinId(crate::stubs::G.p_n1),
+        K_MY_PARENT_ID => Condition::AssertMyParentId(crate::stubs::G.p_n1),
+        K_MY_PUZZLEHASH => Condition::AssertMyPuzzlehash(crate::stubs::G.p_n1),
+        K_MY_AMOUNT => Condition::AssertMyAmount(crate::stubs::G.p_u64),
+        K_MY_BIRTH_SECONDS => Condition::AssertMyBirthSeconds(crate::stubs::G.p_u64),
+        K_MY_BIRTH_HEIGHT => Condition::AssertMyBirthHeight(crate::stubs::G.p_u32),
         K_EPHEMERAL => Condition::AssertEphemeral,
-        K_CREATE_COIN_ANN => Condition::CreateCoinAnnouncement(P_N1),
-        K_CREATE_PUZZLE_ANN => Condition::CreatePuzzleAnnouncement(P_N1),
-        K_ASSERT_COIN_ANN => Condition::AssertCoinAnnouncement(P_N1),
-        K_ASSERT_PUZZLE_ANN => Condition::AssertPuzzleAnnouncement(P_N1),
-        K_CONCURRENT_SPEND => Condition::AssertConcurrentSpend(P_N1),
-        K_CONCURRENT_PUZZLE => Condition::AssertConcurrentPuzzle(P_N1),
-        K_SOFTFORK => Condition::Softfork(P_U64),
-        K_SEND_MESSAGE => Condition::SendMessage(P_U8, mk_sid(P_SID, P_N2, P_N3, P_U64), P_N1),
-        K_RECEIVE_MESSAGE => Condition::ReceiveMessage(mk_sid(P_SID, P_N2, P_N3, P_U64), P_U8, P_N1),
+        K_CREATE_COIN_ANN => Condition::CreateCoinAnnouncement(crate::stubs::G.p_n1),
+        K_CREATE_PUZZLE_ANN => Condition::CreatePuzzleAnnouncement(crate::stubs::G.p_n1),
+        K_ASSERT_COIN_ANN => Condition::AssertCoinAnnouncement(crate::stubs::G.p_n1),
+        K_ASSERT_PUZZLE_ANN => Condition::AssertPuzzleAnnouncement(crate::stubs::G.p_n1),
+        K_CONCURRENT_SPEND => Condition::AssertConcurrentSpend(crate::stubs::G.p_n1),
+        K_CONCURRENT_PUZZLE => Condition::AssertConcurrentPuzzle(crate::stubs::G.p_n1),
+        K_SOFTFORK => Condition::Softfork(crate::stubs::G.p_u64),
+        K_SEND_MESSAGE => Condition::SendMessage(crate::stubs::G.p_u8, mk_sid(crate::stubs::G.p_sid, crate::stubs::G.p_n2, crate::stubs::G.p_n3, crate::stubs::G.p_u64), crate::stubs::G.p_n1),
+        K_RECEIVE_MESSAGE => Condition::ReceiveMessage(mk_sid(crate::stubs::G.p_sid, crate::stubs::G.p_n2, crate::stubs::G.p_n3, crate::stubs::G.p_u64), crate::stubs::G.p_u8, crate::stubs::G.p_n1),
         K_SKIP => Condition::Skip,
         K_SKIP_RELATIVE => Condition::SkipRelativeCondition,
-        K_AGG_SIG_UNSAFE => Condition::AggSigUnsafe(P_N1, P_N2),
-        K_AGG_SIG_ME => Condition::AggSigMe(P_N1, P_N2),
-        K_AGG_SIG_PARENT => Condition::AggSigParent(P_N1, P_N2),
-        K_AGG_SIG_PUZZLE => Condition::AggSigPuzzle(P_N1, P_N2),
-        K_AGG_SIG_AMOUNT => Condition::AggSigAmount(P_N1, P_N2),
-        K_AGG_SIG_PUZZLE_AMOUNT => Condition::AggSigPuzzleAmount(P_N1, P_N2),
-        K_AGG_SIG_PARENT_AMOUNT => Condition::AggSigParentAmount(P_N1, P_N2),
-        _ => Condition::AggSigParentPuzzle(P_N1, P_N2),
+        K_AGG_SIG_UNSAFE => Condition::AggSigUnsafe(crate::stubs::G.p_n1, crate::stubs::G.p_n2),
+        K_AGG_SIG_ME => Condition::AggSigMe(crate::stubs::G.p_n1, crate::stubs::G.p_n2),
+        K_AGG_SIG_PARENT => Condition::AggSigParent(crate::stubs::G.p_n1, crate::stubs::G.p_n2),
+        K_AGG_SIG_PUZZLE => Condition::AggSigPuzzle(crate::stubs::G.p_n1, crate::stubs::G.p_n2),
+        K_AGG_SIG_AMOUNT => Condition::AggSigAmount(crate::stubs::G.p_n1, crate::stubs::G.p_n2),
+        K_AGG_SIG_PUZZLE_AMOUNT => Condition::AggSigPuzzleAmount(crate::stubs::G.p_n1, crate::stubs::G.p_n2),
+        K_AGG_SIG_PARENT_AMOUNT => Condition::AggSigParentAmount(crate::stubs::G.p_n1, crate::stubs::G.p_n2),
+        _ => Condition::AggSigParentPuzzle(crate::stubs::G.p_n1, crate::stubs::G.p_n2),
     }
 }
 
 /// number of `condition()` calls seen (vacuity / sequencing witness)
-pub static mut CV_CALLS: u32 = 0;
 
 pub struct CV<V: SpendVisitor> {
     pub inner: V,
@@ -261,8 +249,8 @@ impl<V: SpendVisitor> SpendVisitor for CV<V> {
     #[allow(invalid_reference_casting)]
     fn condition(&mut self, spend: &mut SpendConditions, c: &Condition) {
         unsafe {
-            CV_CALLS += 1;
-            let kind = EXP_KIND;
+            crate::stubs::G.cv_calls += 1;
+            let kind = crate::stubs::G.exp_kind;
             assert!(cond_same(c, kind), "parsed condition is the one the rules derive");
             let p = c as *const Condition as usize as *mut Condition;
             // identity rewrite (see above); the old value holds no heap data except a
@@ -769,7 +757,7 @@ pub struct Outcome {
 
 /// Runs the real parse_conditions::<CV<EmptyVisitor>> on `list`.
 pub fn run_empty(w: &mut World, spend: SpendConditions, list: NodePtr, kind: u8) -> Outcome {
-    unsafe { EXP_KIND = kind };
+    unsafe { crate::stubs::G.exp_kind = kind };
     let exp = snap(&w.ret, &spend, &mut w.state, w.max_cost, w.ret.spends.len());
     let pre_flags = spend.flags;
     let pre_max_cost = w.max_cost;
